@@ -15,12 +15,23 @@ def Rel (st : PState) (acc : List UInt8) : Prop :=
   | .lescKeysExchanged => acc = [0x0c, 0x01]
   | .lescConfirmSend => acc = [0x0c, 0x01]
   | .lescRandomExchanged => acc = [0x04, 0x0c, 0x01]
-  | .userWait => ∃ n, acc = List.replicate n 0x0d ++ [0x04, 0x0c, 0x01]
+  | .userWait => acc = [0x04, 0x0c, 0x01]
+  | .userWaitVerified => ∃ n, acc = List.replicate n 0x0d ++ [0x04, 0x0c, 0x01]
   | .userSuccess => ∃ n, acc = List.replicate n 0x0d ++ [0x04, 0x0c, 0x01]
   | .userFailed => ∃ n, acc = List.replicate n 0x0d ++ [0x04, 0x0c, 0x01]
   | .completed => acc = [0x04, 0x03, 0x01] ∨ ∃ n, acc = List.replicate n 0x0d ++ [0x04, 0x0c, 0x01]
 
-structure Inv (cfg : Cfg) (s : St) (g : Ghost) : Prop where
+/-- pairing states in which the nonces of this attempt are exchanged -/
+def PState.afterRandom : PState → Bool
+  | .lescRandomExchanged | .userWait | .userWaitVerified | .userSuccess | .userFailed => true
+  | _ => false
+
+/-- pairing states in which the public keys of this attempt are exchanged -/
+def PState.afterKeys : PState → Bool
+  | .lescKeysExchanged | .lescConfirmSend => true
+  | st => st.afterRandom
+
+structure Inv (C : Crypto) (cfg : Cfg) (s : St) (g : Ghost) : Prop where
   rel    : Rel s.st g.acc
   key    : findKeyLocal s 0 0 = g.key
   enc    : s.encrypted = g.enc
@@ -29,12 +40,26 @@ structure Inv (cfg : Cfg) (s : St) (g : Ghost) : Prop where
   le06   : g.sent06 ≤ 1
   le07   : g.sent07 ≤ 1
   conf   : s.st = .legacyConfirmed → g.lastConfirm = some s.mconfirm
-  user   : (s.st = .userWait ∨ s.st = .userSuccess ∨ s.st = .userFailed) →
+  user   : (s.st = .userWait ∨ s.st = .userSuccess ∨ s.st = .userFailed ∨ s.st = .userWaitVerified) →
              cfg.input = .yesNo ∧ cfg.display = true
   nc     : s.lescAlgo = .numericComparison → cfg.display = true ∧ cfg.input ≠ .none
+  /-- the stored key material is the one exchanged in this attempt (ghost: payloads of the PDUs) -/
+  keys   : s.st.afterKeys = true → s.remotePub = g.pka ∧ s.localPriv = g.kp.2 ∧ s.localPub = g.kp.1
+  nonces : s.st.afterRandom = true → s.remoteNonce = g.na ∧ s.localNonce = g.nb
+  /-- Eb is pending only after a DHKey check equal to `Ea` was accepted in this attempt -/
+  dh     : (s.st = .userWaitVerified ∨ s.st = .userSuccess) → g.lastDhkey = some (lescEa C cfg s)
 
-theorem inv_init (cfg : Cfg) : Inv cfg init Ghost.init := by
-  constructor <;> simp [init, Ghost.init, Rel, findKeyLocal]
+/-- the LTK computed from the stored values is the LTK of the exchanged values -/
+theorem Inv.ltk {C : Crypto} {cfg : Cfg} {s : St} {g : Ghost} (h : Inv C cfg s g)
+    (hst : s.st.afterRandom = true) : (lescKeys C cfg s).2 = g.ltk C cfg := by
+  have hk : s.st.afterKeys = true := by
+    revert hst; cases s.st <;> simp [PState.afterKeys, PState.afterRandom]
+  obtain ⟨k1, k2, _⟩ := h.keys hk
+  obtain ⟨n1, n2⟩ := h.nonces hst
+  simp only [lescKeys, Ghost.ltk, k1, k2, n1, n2]
+
+theorem inv_init (C : Crypto) (cfg : Cfg) : Inv C cfg init Ghost.init := by
+  constructor <;> simp [init, Ghost.init, Rel, findKeyLocal, PState.afterKeys, PState.afterRandom]
 
 theorem headD_of_head? {p : Bytes} {k : UInt8} (h : p.head? = some k) : p.headD 0 = k := by
   cases p with
@@ -53,12 +78,16 @@ theorem replicate_succ_append (n : Nat) (l : List UInt8) :
 
 theorem acceptedAt_confirmSend {C : Crypto} {v : Variant} {p : Bytes} {st st' : PState}
     (h : AcceptedAt C v st p st') (hs : st = .lescConfirmSend) :
-    st' = .lescRandomExchanged ∨ st' = .userWait ∨ st' = .userSuccess := by
+    st' = .lescRandomExchanged ∨ st' = .userWait := by
   cases h <;> simp_all
 
+/-- closes an invariant clause whose premise names a pairing state other than the actual one -/
+macro "vac" h:term : tactic =>
+  `(tactic| (intro hc; rw [show _ = _ from $h] at hc; simp [PState.afterKeys, PState.afterRandom] at hc))
+
 /-- preservation by `l2cap_input` -/
-theorem inv_pdu (C : Crypto) (cfg : Cfg) (s : St) (g : Ghost) (p : Bytes) (h : Inv cfg s g) :
-    Inv cfg (l2capInput C cfg s p).1
+theorem inv_pdu (C : Crypto) (cfg : Cfg) (s : St) (g : Ghost) (p : Bytes) (h : Inv C cfg s g) :
+    Inv C cfg (l2capInput C cfg s p).1
       (gstep C cfg s g (.pdu p) (.rsp (l2capInput C cfg s p).2.1 (l2capInput C cfg s p).2.2)) := by
   have hs := l2capInput_spec C cfg s p
   generalize l2capInput C cfg s p = r at hs ⊢
@@ -68,7 +97,8 @@ theorem inv_pdu (C : Crypto) (cfg : Cfg) (s : St) (g : Ghost) (p : Bytes) (h : I
     have hg : gstep C cfg s g (.pdu p) (.rsp r.2.1 r.2.2) = g.aborted := by
       simp only [gstep]; rw [show r.2.1 = [0x05, e] from he]; simp
     rw [hg]
-    refine ⟨by rw [show r.1.st = .idle from hst]; simp [Rel, Ghost.aborted], ?_, ?_, ?_, ?_, h.le06, h.le07, ?_, ?_, ?_⟩
+    refine ⟨by rw [show r.1.st = .idle from hst]; simp [Rel, Ghost.aborted], ?_, ?_, ?_, ?_, h.le06, h.le07, ?_, ?_, ?_,
+      by vac hst, by vac hst, by vac hst⟩
     · rw [findKeyLocal_ne _ (by rw [show r.1.st = .idle from hst]; simp)]; rfl
     · rw [hfr.enc]; exact h.enc
     · rw [hfr.pendEnc]; exact h.pend06
@@ -84,7 +114,8 @@ theorem inv_pdu (C : Crypto) (cfg : Cfg) (s : St) (g : Ghost) (p : Bytes) (h : I
       | nil => rw [hrr] at hr; simp at hr
       | cons a t => rw [hrr] at hr; simp at hr; subst hr; simp
     rw [hg]
-    refine ⟨by rw [show r.1.st = _ from hst']; simp [Rel], ?_, ?_, ?_, ?_, h.le06, h.le07, ?_, ?_, ?_⟩
+    refine ⟨by rw [show r.1.st = _ from hst']; simp [Rel], ?_, ?_, ?_, ?_, h.le06, h.le07, ?_, ?_, ?_,
+      by vac hst', by vac hst', by vac hst'⟩
     · rw [findKeyLocal_ne _ (by rw [show r.1.st = _ from hst']; simp)]
     · rw [hfr.enc]; exact h.enc
     · rw [hfr.pendEnc]; exact h.pend06
@@ -100,7 +131,8 @@ theorem inv_pdu (C : Crypto) (cfg : Cfg) (s : St) (g : Ghost) (p : Bytes) (h : I
       | nil => rw [hrr] at hr; simp at hr
       | cons a t => rw [hrr] at hr; simp at hr; subst hr; simp
     rw [hg]
-    refine ⟨by rw [show r.1.st = _ from hst']; simp [Rel], ?_, ?_, ?_, ?_, h.le06, h.le07, ?_, ?_, hnc⟩
+    refine ⟨by rw [show r.1.st = _ from hst']; simp [Rel], ?_, ?_, ?_, ?_, h.le06, h.le07, ?_, ?_, hnc,
+      by vac hst', by vac hst', by vac hst'⟩
     · rw [findKeyLocal_ne _ (by rw [show r.1.st = _ from hst']; simp)]
     · rw [h1]; exact h.enc
     · rw [h2]; exact h.pend06
@@ -116,7 +148,8 @@ theorem inv_pdu (C : Crypto) (cfg : Cfg) (s : St) (g : Ghost) (p : Bytes) (h : I
       | nil => rw [hrr] at hr; simp at hr
       | cons a t => rw [hrr] at hr; simp at hr; subst hr; simp
     rw [hg]
-    refine ⟨by rw [show r.1.st = _ from hst']; simp [Rel], ?_, ?_, ?_, ?_, h.le06, h.le07, ?_, ?_, ?_⟩
+    refine ⟨by rw [show r.1.st = _ from hst']; simp [Rel], ?_, ?_, ?_, ?_, h.le06, h.le07, ?_, ?_, ?_,
+      by vac hst', by vac hst', by vac hst'⟩
     · rw [findKeyLocal_ne _ (by rw [show r.1.st = _ from hst']; simp)]
     · rw [hfr.enc]; exact h.enc
     · rw [hfr.pendEnc]; exact h.pend06
@@ -128,11 +161,12 @@ theorem inv_pdu (C : Crypto) (cfg : Cfg) (s : St) (g : Ghost) (p : Bytes) (h : I
     have hacc : g.acc = [0x03, 0x01] := by have := h.rel; rw [hst] at this; exact this
     have hg : gstep C cfg s g (.pdu p) (.rsp r.2.1 r.2.2) =
         { g with acc := [0x04, 0x03, 0x01], key := some (C.s1 (legacyTempKey s) s.srand (p.drop 1)),
-                 armed := true, sent06 := 0, sent07 := 0 } := by
+                 na := p.drop 1, nb := s.srand, armed := true, sent06 := 0, sent07 := 0 } := by
       simp only [gstep, headD_of_head? hp, hacc]
       rw [show r.2.1 = 0x04 :: s.srand from hr]; simp
     rw [hg]
-    refine ⟨by rw [show r.1.st = _ from hst']; simp [Rel], ?_, ?_, ?_, ?_, by simp, by simp, ?_, ?_, ?_⟩
+    refine ⟨by rw [show r.1.st = _ from hst']; simp [Rel], ?_, ?_, ?_, ?_, by simp, by simp, ?_, ?_, ?_,
+      by vac hst', by vac hst', by vac hst'⟩
     · rw [findKeyLocal_completed _ hst', hkey]
     · rw [henc]; exact h.enc
     · intro _; simp
@@ -140,13 +174,15 @@ theorem inv_pdu (C : Crypto) (cfg : Cfg) (s : St) (g : Ghost) (p : Bytes) (h : I
     · intro hc; rw [show r.1.st = _ from hst'] at hc; cases hc
     · intro hc; rw [show r.1.st = _ from hst'] at hc; simp at hc
     · rw [halgo]; exact h.nc
-  | publicKey _ hp hst hst' hr _ hfr =>
+  | publicKey _ hp hst hst' hr hrp hpub hpriv hfr =>
     have hacc : g.acc = [0x01] := by have := h.rel; rw [hst] at this; exact this
-    have hg : gstep C cfg s g (.pdu p) (.rsp r.2.1 r.2.2) = { g with acc := [0x0c, 0x01], key := none } := by
+    have hg : gstep C cfg s g (.pdu p) (.rsp r.2.1 r.2.2) =
+        { g with acc := [0x0c, 0x01], key := none, pka := p.drop 1, kp := C.keys s.rng } := by
       simp only [gstep, headD_of_head? hp, hacc]
       rw [show r.2.1 = 0x0c :: r.1.localPub from hr]; simp
     rw [hg]
-    refine ⟨by rw [show r.1.st = _ from hst']; simp [Rel], ?_, ?_, ?_, ?_, h.le06, h.le07, ?_, ?_, ?_⟩
+    refine ⟨by rw [show r.1.st = _ from hst']; simp [Rel], ?_, ?_, ?_, ?_, h.le06, h.le07, ?_, ?_, ?_,
+      fun _ => ⟨hrp, hpriv, hpub⟩, by vac hst', by vac hst'⟩
     · rw [findKeyLocal_ne _ (by rw [show r.1.st = _ from hst']; simp)]
     · rw [hfr.enc]; exact h.enc
     · rw [hfr.pendEnc]; exact h.pend06
@@ -154,27 +190,32 @@ theorem inv_pdu (C : Crypto) (cfg : Cfg) (s : St) (g : Ghost) (p : Bytes) (h : I
     · intro hc; rw [show r.1.st = _ from hst'] at hc; cases hc
     · intro hc; rw [show r.1.st = _ from hst'] at hc; simp at hc
     · rw [hfr.algo]; exact h.nc
-  | lescRandom hacc' hp hst hr _ huser hfr =>
+  | lescRandom hacc' hp hst hr hrn huser hkeep hfr =>
     have hacc : g.acc = [0x0c, 0x01] := by have := h.rel; rw [hst] at this; exact this
-    have hg : gstep C cfg s g (.pdu p) (.rsp r.2.1 r.2.2) = { g with acc := [0x04, 0x0c, 0x01], key := none } := by
+    have hg : gstep C cfg s g (.pdu p) (.rsp r.2.1 r.2.2) =
+        { g with acc := [0x04, 0x0c, 0x01], key := none, na := p.drop 1, nb := r.1.localNonce } := by
       simp only [gstep, headD_of_head? hp, hacc]
       rw [show r.2.1 = 0x04 :: r.1.localNonce from hr]; simp
     rw [hg]
-    have hpost : r.1.st = .lescRandomExchanged ∨ r.1.st = .userWait ∨ r.1.st = .userSuccess := by
+    have hpost : r.1.st = .lescRandomExchanged ∨ r.1.st = .userWait := by
       exact acceptedAt_confirmSend hacc' hst
-    refine ⟨?_, ?_, ?_, ?_, ?_, h.le06, h.le07, ?_, ?_, ?_⟩
-    · rcases hpost with h1 | h1 | h1 <;> rw [show r.1.st = _ from h1] <;> simp [Rel] <;> exact ⟨0, rfl⟩
-    · rw [findKeyLocal_ne _ (by rcases hpost with h1 | h1 | h1 <;> rw [show r.1.st = _ from h1] <;> simp)]
+    obtain ⟨k1, k2, k3⟩ := h.keys (by rw [hst]; rfl)
+    refine ⟨?_, ?_, ?_, ?_, ?_, h.le06, h.le07, ?_, ?_, ?_, ?_, fun _ => ⟨hrn, rfl⟩, ?_⟩
+    · rcases hpost with h1 | h1 <;> rw [show r.1.st = _ from h1] <;> simp [Rel]
+    · rw [findKeyLocal_ne _ (by rcases hpost with h1 | h1 <;> rw [show r.1.st = _ from h1] <;> simp)]
     · rw [hfr.enc]; exact h.enc
     · rw [hfr.pendEnc]; exact h.pend06
     · rw [hfr.pendCid]; exact h.pend07
-    · intro hc; rcases hpost with h1 | h1 | h1 <;> rw [show r.1.st = _ from h1] at hc <;> cases hc
+    · intro hc; rcases hpost with h1 | h1 <;> rw [show r.1.st = _ from h1] at hc <;> cases hc
     · intro hc
       have hne : r.1.st ≠ .lescRandomExchanged := by
-        rcases hc with h1 | h1 | h1 <;> rw [show r.1.st = _ from h1] <;> simp
+        rcases hc with h1 | h1 | h1 | h1 <;> rw [show r.1.st = _ from h1] <;> simp
       obtain ⟨hn, hi⟩ := huser hne
       exact ⟨hi, (h.nc hn).1⟩
     · rw [hfr.algo]; exact h.nc
+    · intro _
+      exact ⟨by rw [hkeep.remotePub]; exact k1, by rw [hkeep.localPriv]; exact k2, by rw [hkeep.localPub]; exact k3⟩
+    · intro hc; rcases hpost with h1 | h1 <;> rw [show r.1.st = _ from h1] at hc <;> simp at hc
   | dhkeyCheck _ hp hst hst' hr _ hkey henc h2 h3 _ halgo _ =>
     have hacc : ∃ n, g.acc = List.replicate n 0x0d ++ [0x04, 0x0c, 0x01] := by
       have := h.rel
@@ -182,40 +223,45 @@ theorem inv_pdu (C : Crypto) (cfg : Cfg) (s : St) (g : Ghost) (p : Bytes) (h : I
       · exact ⟨0, this⟩
       · exact this
     obtain ⟨n, hacc⟩ := hacc
+    have hltk : (lescKeys C cfg s).2 = g.ltk C cfg :=
+      h.ltk (by rcases hst with hst | hst <;> rw [hst] <;> rfl)
     have hg : gstep C cfg s g (.pdu p) (.rsp r.2.1 r.2.2) =
-        { g with acc := 0x0d :: g.acc, key := some (lescKeys C cfg s).2 } := by
+        { g with acc := 0x0d :: g.acc, key := some (g.ltk C cfg), lastDhkey := some (p.drop 1) } := by
       simp only [gstep, headD_of_head? hp]
       rw [show r.2.1 = 0x0d :: lescEb C cfg s from hr]; simp
     rw [hg]
-    refine ⟨?_, ?_, ?_, ?_, ?_, h.le06, h.le07, ?_, ?_, ?_⟩
+    refine ⟨?_, ?_, ?_, ?_, ?_, h.le06, h.le07, ?_, ?_, ?_, by vac hst', by vac hst', by vac hst'⟩
     · rw [show r.1.st = _ from hst']
       simp only [Rel]
       right
       exact ⟨n + 1, by rw [hacc]; exact replicate_succ_append n _⟩
-    · rw [findKeyLocal_completed _ hst', hkey]
+    · rw [findKeyLocal_completed _ hst', hkey, hltk]
     · rw [henc]; exact h.enc
     · rw [h2]; exact h.pend06
     · rw [h3]; exact h.pend07
     · intro hc; rw [show r.1.st = _ from hst'] at hc; cases hc
     · intro hc; rw [show r.1.st = _ from hst'] at hc; simp at hc
     · rw [halgo]; exact h.nc
-  | dhkeyDeferred _ hp hst hsame hr =>
-    have hacc : ∃ n, g.acc = List.replicate n 0x0d ++ [0x04, 0x0c, 0x01] := by
+  | dhkeyVerified _ hp hst hea hpost hr =>
+    have hacc : g.acc = [0x04, 0x0c, 0x01] := by
       have := h.rel; rw [hst] at this; exact this
-    obtain ⟨n, hacc⟩ := hacc
-    have hg : gstep C cfg s g (.pdu p) (.rsp r.2.1 r.2.2) = { g with acc := 0x0d :: g.acc, key := none } := by
+    have hg : gstep C cfg s g (.pdu p) (.rsp r.2.1 r.2.2) =
+        { g with acc := 0x0d :: g.acc, key := none, lastDhkey := some (p.drop 1) } := by
       simp only [gstep, headD_of_head? hp]
       rw [show r.2.1 = [] from hr]; simp
-    rw [hg, show r.1 = s from hsame]
-    refine ⟨?_, ?_, h.enc, h.pend06, h.pend07, h.le06, h.le07, ?_, h.user, h.nc⟩
-    · rw [hst]
-      exact ⟨n + 1, by rw [hacc]; exact replicate_succ_append n _⟩
-    · rw [findKeyLocal_ne _ (by rw [hst]; simp)]
-    · intro hc; rw [hst] at hc; cases hc
+    rw [hg, show r.1 = _ from hpost]
+    refine ⟨?_, ?_, h.enc, h.pend06, h.pend07, h.le06, h.le07, ?_, fun _ => h.user (Or.inl hst), h.nc,
+      fun _ => h.keys (by rw [hst]; rfl), fun _ => h.nonces (by rw [hst]; rfl), ?_⟩
+    · exact ⟨1, by rw [hacc]; rfl⟩
+    · simp [findKeyLocal]
+    · intro hc; cases hc
+    · intro _
+      show some (p.drop 1) = some (lescEa C cfg s)
+      rw [hea]
 
 /-- preservation by `l2cap_output` -/
-theorem inv_out (C : Crypto) (cfg : Cfg) (s : St) (g : Ghost) (h : Inv cfg s g) :
-    Inv cfg (l2capOutput C cfg s).1
+theorem inv_out (C : Crypto) (cfg : Cfg) (s : St) (g : Ghost) (h : Inv C cfg s g) :
+    Inv C cfg (l2capOutput C cfg s).1
       (gstep C cfg s g .out (.rsp (l2capOutput C cfg s).2.1 (l2capOutput C cfg s).2.2)) := by
   have hs := l2capOutput_spec C cfg s
   generalize l2capOutput C cfg s = r at hs ⊢
@@ -224,32 +270,32 @@ theorem inv_out (C : Crypto) (cfg : Cfg) (s : St) (g : Ghost) (h : Inv cfg s g) 
     have hg : gstep C cfg s g .out (.rsp r.2.1 r.2.2) = g := by
       simp only [gstep]; rw [show r.2.1 = [] from hr]; simp
     rw [hg, show r.1 = s from hsame]; exact h
-  | confirmSent _ hst hst' hr hfr =>
+  | confirmSent _ hst hpost hr =>
     have hg : gstep C cfg s g .out (.rsp r.2.1 r.2.2) = g := by
       simp only [gstep]
       cases hrr : r.2.1 with
       | nil => rw [hrr] at hr; simp at hr
       | cons a t => rw [hrr] at hr; simp at hr; subst hr; simp
-    rw [hg]
+    rw [hg, show r.1 = _ from hpost]
     have hrel := h.rel
     rw [hst] at hrel
-    refine ⟨by rw [show r.1.st = _ from hst']; exact hrel, ?_, ?_, ?_, ?_, h.le06, h.le07, ?_, ?_, ?_⟩
-    · rw [findKeyLocal_ne _ (by rw [show r.1.st = _ from hst']; simp), ← h.key,
-        findKeyLocal_ne _ (by rw [hst]; simp)]
-    · rw [hfr.enc]; exact h.enc
-    · rw [hfr.pendEnc]; exact h.pend06
-    · rw [hfr.pendCid]; exact h.pend07
-    · intro hc; rw [show r.1.st = _ from hst'] at hc; cases hc
-    · intro hc; rw [show r.1.st = _ from hst'] at hc; simp at hc
-    · rw [hfr.algo]; exact h.nc
+    refine ⟨hrel, ?_, h.enc, h.pend06, h.pend07, h.le06, h.le07, ?_, ?_, h.nc,
+      fun _ => h.keys (by rw [hst]; rfl), ?_, ?_⟩
+    · rw [← h.key]; simp [findKeyLocal, hst]
+    · intro hc; cases hc
+    · intro hc; simp at hc
+    · intro hc; simp [PState.afterRandom] at hc
+    · intro hc; simp at hc
   | dhkeySent _ hst hst' hr hkey henc h2 h3 _ halgo =>
-    have hg : gstep C cfg s g .out (.rsp r.2.1 r.2.2) = { g with key := some (lescKeys C cfg s).2 } := by
+    have hltk : (lescKeys C cfg s).2 = g.ltk C cfg := h.ltk (by rw [hst]; rfl)
+    have hg : gstep C cfg s g .out (.rsp r.2.1 r.2.2) = { g with key := some (g.ltk C cfg) } := by
       simp only [gstep]; rw [show r.2.1 = 0x0d :: lescEb C cfg s from hr]; simp
     rw [hg]
     have hrel := h.rel
     rw [hst] at hrel
-    refine ⟨by rw [show r.1.st = _ from hst']; exact Or.inr hrel, ?_, ?_, ?_, ?_, h.le06, h.le07, ?_, ?_, ?_⟩
-    · rw [findKeyLocal_completed _ hst', hkey]
+    refine ⟨by rw [show r.1.st = _ from hst']; exact Or.inr hrel, ?_, ?_, ?_, ?_, h.le06, h.le07, ?_, ?_, ?_,
+      by vac hst', by vac hst', by vac hst'⟩
+    · rw [findKeyLocal_completed _ hst', hkey, hltk]
     · rw [henc]; exact h.enc
     · rw [h2]; exact h.pend06
     · rw [h3]; exact h.pend07
@@ -261,7 +307,8 @@ theorem inv_out (C : Crypto) (cfg : Cfg) (s : St) (g : Ghost) (h : Inv cfg s g) 
     have hg : gstep C cfg s g .out (.rsp r.2.1 r.2.2) = g.aborted := by
       simp only [gstep]; rw [show r.2.1 = [0x05, e] from he]; simp
     rw [hg]
-    refine ⟨by rw [show r.1.st = .idle from hst]; simp [Rel, Ghost.aborted], ?_, ?_, ?_, ?_, h.le06, h.le07, ?_, ?_, ?_⟩
+    refine ⟨by rw [show r.1.st = .idle from hst]; simp [Rel, Ghost.aborted], ?_, ?_, ?_, ?_, h.le06, h.le07, ?_, ?_, ?_,
+      by vac hst, by vac hst, by vac hst⟩
     · rw [findKeyLocal_ne _ (by rw [show r.1.st = .idle from hst]; simp)]; rfl
     · rw [hfr.enc]; exact h.enc
     · rw [hfr.pendEnc]; exact h.pend06
@@ -274,7 +321,7 @@ theorem inv_out (C : Crypto) (cfg : Cfg) (s : St) (g : Ghost) (h : Inv cfg s g) 
       simp only [gstep]; rw [show r.2.1 = 0x06 :: s.pendKey.key from hr]; simp
     rw [hg, show r.1 = _ from hpost]
     obtain ⟨ha, h0⟩ := h.pend06 hpe
-    refine ⟨h.rel, h.key, h.enc, ?_, h.pend07, ?_, h.le07, h.conf, h.user, h.nc⟩
+    refine ⟨h.rel, h.key, h.enc, ?_, h.pend07, ?_, h.le07, h.conf, h.user, h.nc, h.keys, h.nonces, h.dh⟩
     · intro hc; simp at hc
     · simp [h0]
   | centralId _ _ _ _ hpc hr hpost =>
@@ -282,46 +329,45 @@ theorem inv_out (C : Crypto) (cfg : Cfg) (s : St) (g : Ghost) (h : Inv cfg s g) 
       simp only [gstep]; rw [show r.2.1 = _ from hr]; simp
     rw [hg, show r.1 = _ from hpost]
     obtain ⟨ha, h0⟩ := h.pend07 hpc
-    refine ⟨h.rel, h.key, h.enc, h.pend06, ?_, h.le06, ?_, h.conf, h.user, h.nc⟩
+    refine ⟨h.rel, h.key, h.enc, h.pend06, ?_, h.le06, ?_, h.conf, h.user, h.nc, h.keys, h.nonces, h.dh⟩
     · intro hc; simp at hc
     · simp [h0]
 
 /-- **the invariant is preserved by every operation** -/
-theorem inv_step (C : Crypto) (cfg : Cfg) (s : St) (g : Ghost) (op : Op) (h : Inv cfg s g) :
-    Inv cfg (step C cfg s op).1 (gstep C cfg s g op (step C cfg s op).2) := by
+theorem inv_step (C : Crypto) (cfg : Cfg) (s : St) (g : Ghost) (op : Op) (h : Inv C cfg s g) :
+    Inv C cfg (step C cfg s op).1 (gstep C cfg s g op (step C cfg s op).2) := by
   cases op with
   | pdu p => exact inv_pdu C cfg s g p h
   | out => exact inv_out C cfg s g h
-  | enc b => exact ⟨h.rel, h.key, rfl, h.pend06, h.pend07, h.le06, h.le07, h.conf, h.user, h.nc⟩
-  | user m => exact ⟨h.rel, h.key, h.enc, h.pend06, h.pend07, h.le06, h.le07, h.conf, h.user, h.nc⟩
-  | kbd n => exact ⟨h.rel, h.key, h.enc, h.pend06, h.pend07, h.le06, h.le07, h.conf, h.user, h.nc⟩
-  | oob a d => exact ⟨h.rel, h.key, h.enc, h.pend06, h.pend07, h.le06, h.le07, h.conf, h.user, h.nc⟩
+  | enc b => exact ⟨h.rel, h.key, rfl, h.pend06, h.pend07, h.le06, h.le07, h.conf, h.user, h.nc, h.keys, h.nonces, h.dh⟩
+  | user m => exact ⟨h.rel, h.key, h.enc, h.pend06, h.pend07, h.le06, h.le07, h.conf, h.user, h.nc, h.keys, h.nonces, h.dh⟩
+  | kbd n => exact ⟨h.rel, h.key, h.enc, h.pend06, h.pend07, h.le06, h.le07, h.conf, h.user, h.nc, h.keys, h.nonces, h.dh⟩
+  | oob a d => exact ⟨h.rel, h.key, h.enc, h.pend06, h.pend07, h.le06, h.le07, h.conf, h.user, h.nc, h.keys, h.nonces, h.dh⟩
   | findKey e r => exact h
   | conn =>
-    constructor <;> simp [step, gstep, newConnection, Ghost.init, Rel, findKeyLocal]
+    constructor <;> simp [step, gstep, newConnection, Ghost.init, Rel, findKeyLocal, PState.afterKeys, PState.afterRandom]
   | answer b =>
     simp only [step, answer]
     split
     · rename_i hw
+      have hk : g.key = none := by
+        rw [← h.key, findKeyLocal_ne _ (by rcases hw with hw | hw <;> rw [hw] <;> simp)]
+      have hu := h.user (by rcases hw with hw | hw <;> simp [hw])
+      have hkeys := h.keys (by rcases hw with hw | hw <;> rw [hw] <;> rfl)
+      have hnon := h.nonces (by rcases hw with hw | hw <;> rw [hw] <;> rfl)
       have hrel := h.rel
-      rw [hw] at hrel
-      have hu := h.user (Or.inl hw)
-      have hk : g.key = none := by rw [← h.key, findKeyLocal_ne _ (by rw [hw]; simp)]
-      cases b
-      · refine ⟨hrel, ?_, h.enc, h.pend06, h.pend07, h.le06, h.le07, ?_, fun _ => hu, h.nc⟩
-        · simp [gstep, findKeyLocal, hk]
-        · intro hc; simp at hc
-      · refine ⟨hrel, ?_, h.enc, h.pend06, h.pend07, h.le06, h.le07, ?_, fun _ => hu, h.nc⟩
-        · simp [gstep, findKeyLocal, hk]
-        · intro hc; simp at hc
+      rcases hw with hw | hw <;> rw [hw] at hrel <;> cases b <;>
+        refine ⟨?_, ?_, h.enc, h.pend06, h.pend07, h.le06, h.le07, ?_, fun _ => hu, h.nc,
+          fun _ => hkeys, fun _ => hnon, ?_⟩ <;>
+        simp [gstep, findKeyLocal, hk, hw, yesNoResponse, Rel] <;> first | exact hrel | exact ⟨0, hrel⟩ | exact h.dh (Or.inl hw) | skip
     · exact h
 
 /-! ### histories -/
 
 theorem runG_inv (C : Crypto) (cfg : Cfg) (ops : List Op) :
-    ∀ (s : St) (g : Ghost), Inv cfg s g →
-      Inv cfg (runG C cfg s g ops).1 (runG C cfg s g ops).2.1 ∧
-      ∀ e ∈ (runG C cfg s g ops).2.2, Inv cfg e.1 e.2.1 ∧ e.2.2.2 = (step C cfg e.1 e.2.2.1).2 := by
+    ∀ (s : St) (g : Ghost), Inv C cfg s g →
+      Inv C cfg (runG C cfg s g ops).1 (runG C cfg s g ops).2.1 ∧
+      ∀ e ∈ (runG C cfg s g ops).2.2, Inv C cfg e.1 e.2.1 ∧ e.2.2.2 = (step C cfg e.1 e.2.2.1).2 := by
   induction ops with
   | nil => intro s g h; exact ⟨h, by simp [runG]⟩
   | cons op ops ih =>
